@@ -12,6 +12,9 @@ import (
 // Global atomic counter for fast void-return service key generation
 var voidKeyCounter uint64
 
+// Global atomic counter identifying registrations (one Add* call each)
+var registrationCounter uint64
+
 // Descriptor represents services
 type Descriptor struct {
 	// Type is the service type this descriptor produces
@@ -51,6 +54,11 @@ type Descriptor struct {
 
 	// VoidReturn indicates if the constructor has no valid return values
 	VoidReturn bool
+
+	// registration identifies the Add* call this descriptor stems from. All
+	// descriptors derived from one constructor (multiple returns, result object
+	// fields, interface aliases) share it.
+	registration uint64
 
 	// Analysis results cached for performance
 	isFunc         bool
@@ -137,6 +145,7 @@ func newDescriptorWithAnalyzer(service any, lifetime Lifetime, analyzer *reflect
 		IsInstance:       isInstance,
 		Instance:         nil,
 		MultiReturnIndex: -1,
+		registration:     atomic.AddUint64(&registrationCounter, 1),
 	}
 
 	// Store the instance if it's not a function
